@@ -4,15 +4,16 @@ PLAN = dict(
         coq_targets=["Props/C08.vo"],
         steps=[
             # model of axcut2rv64 = the crate: instruction lists, printed routine text, capacity/print panics
-            step("rv-correspondence", "codegen-all", "codegen-rv", 300, 24000),
+            step("rv-correspondence", "codegen-all", "codegen-rv", 300, 8000, args=["--rv-only"]),
             # executable form of C08 on the crate's output: RV code on the ISA model vs the AxCut linear
-            # machine, and vs the x86-64 code of the same program on the x86-64 ISA model
-            step("rv-semantics-and-backend-agreement", "codegen-all", "sem-rv", 300, 24000),
+            # machine, and vs the x86-64 and AArch64 code of the same program on their ISA models
+            step("rv-semantics-and-backend-agreement", "codegen-all", "sem-rv", 150, 3200),
         ],
         rule="inputs: every .sc program of /repo/examples, /repo/testsuite and corpus/fun (rv_*.sc are print-free: all five operators, "
              "all twelve comparison forms, lists, closures with 1-3 destructors, constructors with up to 7 fields, sharing/erasing) through "
-             "the real pipeline, plus n random linear print-free AxCut programs from harness/src/gen_rvmini.rs (8 type declarations, "
-             "contexts up to 14, some up to 16 to hit the capacity limit; accepted by the harness's linear type checker), each with 6 "
+             "the real pipeline, plus n random linear print-free AxCut programs: two thirds from harness/src/gen_rvmini.rs (8 type declarations, "
+             "contexts up to 14, some up to 16 to hit the capacity limit, counting loops that allocate and drop), one third from "
+             "harness/src/gen_axlin.rs with its print statements removed; all accepted by the harness's linear type checker; each with 6 "
              "argument tuples (small, negative, zero, boundary). A case is non-trivial (nt) when code was produced and compared; tags "
              "give the input distribution (mem/table/alloc = stores/jump tables/bump allocation present, blocksK = log2 of heap blocks "
              "touched at run time, exitN/undefN = reference runs ending in exit / in a source-level undefined operation, liveN).",
@@ -22,14 +23,16 @@ PLAN = dict(
                     "routine text verbatim, Rust panic <=> model Err. Semantics: for print-free programs the Rust-emitted code run on "
                     "Sem/RVSem.v gives the observation of Sem/AxSem.run_linear for every argument tuple whose reference run exits or hits "
                     "an undefined operation (VIOL class=rv-semantic-mismatch otherwise), a panic at <= 14 live variables is VIOL "
-                    "class=rv-capacity-panic, and the result equals that of the x86-64 code on Sem/X86Sem.v (class=rv-x86-disagree). "
+                    "class=rv-capacity-panic, and the result equals that of the x86-64 code on Sem/X86Sem.v and of the AArch64 code on Sem/A64Sem.v (class=rv-x86-disagree, "
+                    "class=rv-a64-disagree). "
                     "Programs with prints or beyond 14 live variables are SKIPped by the semantic step (print_i64 panics on this back end).",
         assumptions=[
             "the RV64 ISA model Sem/RVSem.v follows the RISC-V unprivileged specification and the assembler manual's pseudo-instruction "
             "expansions; it cannot be validated against hardware or an emulator in this environment (no RISC-V tool chain)",
             "LW/SW are read as 64-bit accesses (ld/sd) and the entry state (X2 = heap base, X3 = heap base + one block, arguments in "
             "X5, X7, ..) is what `setup` establishes on the other two back ends: the crate itself emits no prologue",
-            "AArch64 takes part in three_backends_agree only once Sem/A64Sem.v exists; until then x86-64 only",
+            "three_backends_agree compares argument tuples of at most 5 integers with x86-64 and at most 7 with AArch64 (their calling conventions)",
+            "the jump-table stride assumes uncompressed 4-byte JAL (no RVC relaxation of `j label`); the crate's jump_label_fixed does not enforce this",
         ],
-        trusted=["Sem/RVSem.v (RV64IM subset semantics, decisions listed in its header)", "Sem/X86Sem.v (validated against native execution by C06)"],
+        trusted=["Sem/RVSem.v (RV64IM subset semantics, decisions listed in its header)", "Sem/X86Sem.v (validated against native execution by C06)", "Sem/A64Sem.v (follows the Arm ARM; not validated against hardware)"],
     )
